@@ -57,6 +57,13 @@ type Bounds struct {
 	// MaxEvals > 0 caps the evaluations of one case (default 20 R); MinMembers > 0: initial groups have at least that many members
 	MaxEvals   int `json:",omitempty"`
 	MinMembers int `json:",omitempty"`
+	// Compound: besides the single events, two changes in ONE rebalance: (a topic is deleted | a member changes its
+	// subscription | a member leaves) and a fresh member joins
+	Compound bool `json:",omitempty"`
+	// CompoundSub: also (a member changes its subscription) and a fresh member joins - by far the largest class
+	CompoundSub bool `json:",omitempty"`
+	// DupSubs: the first plan is also computed with subscriptions that name a topic twice (all members / the first one)
+	DupSubs bool `json:",omitempty"`
 }
 
 // ---------------------------------------------------------------------------------------------
@@ -219,11 +226,23 @@ type Event struct {
 	Claim   string   `json:"claim,omitempty"`   // join with stale data: all | dirty | one
 	Topic   string   `json:"topic,omitempty"`   // gain, lose, delete
 	K       int      `json:"k,omitempty"`       // lose: number of trailing partitions that vanish
+	Dup     string   `json:"dup,omitempty"`     // plan: "all" | "first": these members name their first topic twice in the subscription
+	// Also: a second change that reaches the leader in the SAME rebalance (a rebalance collects everything that
+	// happened since the last one): delete+join, sub+join, leave+join. Only in families with Bounds.Compound.
+	Also *Event `json:"also,omitempty"`
 }
 
 func (e Event) Label() string {
+	if e.Also != nil {
+		one := e
+		one.Also = nil
+		return one.Label() + "+" + e.Also.Label()
+	}
 	switch e.Kind {
 	case "plan":
+		if e.Dup != "" {
+			return "plan(duplicate topic name: " + e.Dup + ")"
+		}
 		return "plan"
 	case "join":
 		if e.Stale == "" {
@@ -244,6 +263,11 @@ func (e Event) Label() string {
 
 // Class is the coarse event class used in signatures and per-class counters.
 func (e Event) Class() string {
+	if e.Also != nil {
+		one := e
+		one.Also = nil
+		return one.Class() + "+" + e.Also.Class()
+	}
 	if e.Kind == "join" {
 		if e.Stale == "" {
 			return "join-fresh"
@@ -252,6 +276,9 @@ func (e Event) Class() string {
 	}
 	if e.Kind == "join2" {
 		return "join-two-stale"
+	}
+	if e.Kind == "plan" && e.Dup != "" {
+		return "plan-duplicate-topic"
 	}
 	return e.Kind
 }
@@ -290,6 +317,12 @@ func sameStrings(a, b []string) bool {
 // event would merely produce another initial input, which is enumerated separately).
 func Events(s *State, b Bounds, pool []string) []Event {
 	evs := []Event{{Kind: "plan"}}
+	if b.DupSubs && s.fresh() {
+		evs = append(evs, Event{Kind: "plan", Dup: "all"})
+		if len(s.Members) > 1 {
+			evs = append(evs, Event{Kind: "plan", Dup: "first"})
+		}
+	}
 	if s.Strat != Sticky || s.fresh() {
 		return evs
 	}
@@ -345,6 +378,51 @@ func Events(s *State, b Bounds, pool []string) []Event {
 			evs = append(evs, Event{Kind: "leave", Member: m.ID})
 		}
 	}
+	if b.Compound && len(s.Members) < b.MaxMembers {
+		joiner := ""
+		for _, id := range pool {
+			present := false
+			for _, m := range s.Members {
+				present = present || m.ID == id
+			}
+			if !present && joiner == "" {
+				joiner = id
+			}
+		}
+		if joiner != "" {
+			for _, t := range s.Topics {
+				var rest []string
+				for _, n := range names {
+					if n != t.Name {
+						rest = append(rest, n)
+					}
+				}
+				for _, ss := range subsets(rest) {
+					evs = append(evs, Event{Kind: "delete", Topic: t.Name, Also: &Event{Kind: "join", Member: joiner, Subs: ss}})
+				}
+			}
+			for _, m := range s.Members {
+				if !b.CompoundSub {
+					break
+				}
+				for _, ms := range subs {
+					if sameStrings(ms, m.Subs) {
+						continue
+					}
+					for _, ss := range subs {
+						evs = append(evs, Event{Kind: "sub", Member: m.ID, Subs: ms, Also: &Event{Kind: "join", Member: joiner, Subs: ss}})
+					}
+				}
+			}
+			if len(s.Members) >= 2 {
+				for _, m := range s.Members {
+					for _, ss := range subs {
+						evs = append(evs, Event{Kind: "leave", Member: m.ID, Also: &Event{Kind: "join", Member: joiner, Subs: ss}})
+					}
+				}
+			}
+		}
+	}
 	if b.Light {
 		return evs
 	}
@@ -391,6 +469,7 @@ type Input struct {
 	Cluster []Topic        // cluster after the event
 	Topics  map[string]int // subscribed topics -> partition count (what consumerGroup.balance passes)
 	Gen     int            // generation of the plan being computed
+	Dup     string         // "all" | "first": these members' subscriptions name their first topic twice
 }
 
 func copyOwn(o map[string][]int32) map[string][]int32 {
@@ -418,8 +497,33 @@ func Apply(s *State, e Event) (in *Input, ok bool) {
 		}
 		in.Members = append(in.Members, im)
 	}
+	if !mutate(in, s, e) {
+		return nil, false
+	}
+	if e.Also != nil && !mutate(in, s, *e.Also) {
+		return nil, false
+	}
+	if len(in.Members) == 0 {
+		return nil, false
+	}
+	in.Topics = map[string]int{}
+	for _, m := range in.Members {
+		for _, t := range m.Subs {
+			for _, c := range in.Cluster {
+				if c.Name == t {
+					in.Topics[t] = c.N
+				}
+			}
+		}
+	}
+	return in, true
+}
+
+// mutate applies one change to the input being built (s: the state before the rebalance).
+func mutate(in *Input, s *State, e Event) bool {
 	switch e.Kind {
 	case "plan":
+		in.Dup = e.Dup
 	case "join":
 		im := InMember{ID: e.Member, Subs: append([]string(nil), e.Subs...)}
 		if e.Stale != "" {
@@ -524,22 +628,9 @@ func Apply(s *State, e Event) (in *Input, ok bool) {
 		}
 		in.Members = keep
 	default:
-		return nil, false
+		return false
 	}
-	if len(in.Members) == 0 {
-		return nil, false
-	}
-	in.Topics = map[string]int{}
-	for _, m := range in.Members {
-		for _, t := range m.Subs {
-			for _, c := range in.Cluster {
-				if c.Name == t {
-					in.Topics[t] = c.N
-				}
-			}
-		}
-	}
-	return in, true
+	return true
 }
 
 // Successor is the state after the plan was distributed: every member of the input carries the
